@@ -100,6 +100,31 @@ int main(void) {
             else if (!strcmp(name, "assertStringNotEqual")) assert_string_not_equal(A, (const char *)b2);
             else if (!strcmp(name, "assertStringEqualMsg")) assert_string_equal_with_message(A, (const char *)b2, "m");
             else if (!strcmp(name, "assertStringNotEqualMsg")) assert_string_not_equal_with_message(A, (const char *)b2, "m");
+#ifdef __cplusplus
+        } else if (!strncmp(line, "strp ", 5) || !strncmp(line, "strq ", 5)) {
+            /* C++ only. strp: the expected value as a `std::string *` (the pointer overloads of the constraint constructors), the actual one
+               as a `const char *`; strq: the actual value as a `std::string *` */
+            sscanf(line + 5, "%63s %65535s %65535s", name, h1, h2);
+            unhex(h1, b1); unhex(h2, b2);
+            std::string E((const char *)b2);
+            std::string AS((const char *)b1);
+            const std::string *EP = &E;
+            std::string *AP = &AS;
+            const char *A = (const char *)b1;
+            if (line[3] == 'p') {
+                if (!strcmp(name, "isEqualToString")) assert_that(A, is_equal_to_string(EP));
+                else if (!strcmp(name, "isNotEqualToString")) assert_that(A, is_not_equal_to_string(EP));
+                else if (!strcmp(name, "containsString")) assert_that(A, contains_string(EP));
+                else if (!strcmp(name, "doesNotContainString")) assert_that(A, does_not_contain_string(EP));
+                else if (!strcmp(name, "beginsWithString")) assert_that(A, begins_with_string(EP));
+            } else {
+                if (!strcmp(name, "isEqualToString")) assert_that(AP, is_equal_to_string(E));
+                else if (!strcmp(name, "isNotEqualToString")) assert_that(AP, is_not_equal_to_string(E));
+                else if (!strcmp(name, "containsString")) assert_that(AP, contains_string(E));
+                else if (!strcmp(name, "doesNotContainString")) assert_that(AP, does_not_contain_string(E));
+                else if (!strcmp(name, "beginsWithString")) assert_that(AP, begins_with_string(E));
+            }
+#endif
         } else if (!strncmp(line, "mem ", 4)) {
             int size;
             sscanf(line, "mem %63s %d %65535s %65535s", name, &size, h1, h2);
